@@ -21,7 +21,7 @@ def meta(tier):
     return dict(bounds=dict(programs=len(PG.programs(tier)), hole_lengths=PG.LENS_Q if q else PG.LENS_T, one_symbolic_hole_per_unit=True),
                 assumptions=["names differ from keywords and from every intrinsic name of either standard",
                              "registries built by the real ParserFactory.create(std), cached per process"],
-                budget_s=400 if q else 1500, unit_budget_s=60 if q else 300)
+                budget_s=400 if q else 1200, unit_budget_s=60 if q else 300)
 
 
 F2008_INTRINSICS = """acosh asinh atanh bessel_j0 bessel_j1 bessel_jn bessel_y0 bessel_y1 bessel_yn erf erfc erfc_scaled gamma hypot
